@@ -220,6 +220,11 @@ theorem step_isDone (c : Cfg) (st st' : StA) (e : EvA) (h : stepA c st e = some 
     split at h
     · cases h; simp [finishes]
     · cases h
+  | extCancel =>
+    simp only [stepA] at h
+    split at h
+    · cases h; simp [finishes]
+    · cases h
 
 /-- G2, step: `_running` is set exactly by the events that begin the body -/
 theorem step_rflag (c : Cfg) (st st' : StA) (e : EvA) (h : stepA c st e = some st') (j : Nat) :
@@ -277,6 +282,11 @@ theorem step_rflag (c : Cfg) (st st' : StA) (e : EvA) (h : stepA c st e = some s
     · cases h; split <;> simp [begins]
     · cases h
   | tick d =>
+    simp only [stepA] at h
+    split at h
+    · cases h; simp [begins]
+    · cases h
+  | extCancel =>
     simp only [stepA] at h
     split at h
     · cases h; simp [begins]
@@ -351,6 +361,11 @@ theorem step_pc (c : Cfg) (st st' : StA) (e : EvA) (h : stepA c st e = some st')
       · revert hs; split <;> simp [setAt, hj]
     · cases h
   | tick d =>
+    simp only [stepA] at h
+    split at h
+    · cases h; left; simpa using hs
+    · cases h
+  | extCancel =>
     simp only [stepA] at h
     split at h
     · cases h; left; simpa using hs
@@ -450,6 +465,11 @@ theorem step_early (c : Cfg) (st st' : StA) (e : EvA) (h : stepA c st e = some s
     split at h
     · cases h; simpa [begins] using he
     · cases h
+  | extCancel =>
+    simp only [stepA] at h
+    split at h
+    · cases h; simpa [begins] using he
+    · cases h
 
 /-- a run that began stays begun -/
 theorem step_pc_mono (c : Cfg) (st st' : StA) (e : EvA) (h : stepA c st e = some st') (s : Nat)
@@ -517,6 +537,11 @@ theorem step_pc_mono (c : Cfg) (st st' : StA) (e : EvA) (h : stepA c st e = some
       split <;> exact this
     · cases h
   | tick d =>
+    simp only [stepA] at h
+    split at h
+    · cases h; exact hs
+    · cases h
+  | extCancel =>
     simp only [stepA] at h
     split at h
     · cases h; exact hs
@@ -609,6 +634,11 @@ theorem step_leave_idle (c : Cfg) (st st' : StA) (e : EvA) (h : stepA c st e = s
       revert hn; split <;> simp [setAt, hkj, hi]
     · cases h
   | tick d =>
+    simp only [stepA] at h
+    split at h
+    · cases h; exact absurd hi hn
+    · cases h
+  | extCancel =>
     simp only [stepA] at h
     split at h
     · cases h; exact absurd hi hn
